@@ -13,6 +13,7 @@ open Jomini.TextTape (FVal FFirst FFields FVals FItems Scal)
 /-- a braced value: writing it ends with a `write_end`, which switches a stale mixed mode off -/
 def closesV : FVal → Bool
   | .scal .. => false
+  | .ghostIn _ _ _ v => closesV v
   | _ => true
 
 /-- the content of the value is the empty container (`{}`, also behind ghost objects: `{ {} }`) -/
@@ -26,13 +27,17 @@ mutual
 def closesF : FFields → Bool
   | .nil => false
   | .cons _ _ _ _ v rest => closesV v || closesF rest
-  | .consImp .. => true
+  | .consImp _ _ v rest => closesV v || closesF rest
   | .ghost _ _ rest => closesF rest
-  | .consHdr .. => true
+  | .consHdr _ _ _ _ _ _ body rest => closesV body || closesF rest
   | .paramVal _ _ _ _ _ _ rest => closesF rest
   | .paramObj _ _ _ _ _ _ _ v inner _ rest => closesV v || (closesF inner || closesF rest)
-  | .paramHdr .. => true
+  | .paramHdr _ _ _ _ _ _ body rest => closesV body || closesF rest
 end
+
+def closesVs : FVals → Bool
+  | .nil => false
+  | .cons v rest => closesV v || closesVs rest
 
 def closesFirst : FFirst → Bool
   | .kv _ _ _ v => closesV v
@@ -79,7 +84,7 @@ def FPlainV (w : Bool) : FVal → Prop
       (openEndFirst first = true → TextTape.fcntF rest = 0)
   | .arrS _ _ _ rest _ => FPlainVs w rest
   /- first element with empty content: known finding `roundtrip-empty-first-element` -/
-  | .arrC _ first rest _ => emptyC first = false ∧ FPlainV w first ∧ FPlainVs false rest
+  | .arrC _ first rest _ => emptyC first = false ∧ FPlainV w first ∧ FPlainVs (w && !closesV first) rest
   | .ghostIn _ _ _ v => FPlainV w v
   /- an object that continues as a bare value list: outside the property's quantifier (the writer
   documents it as not preserved) -/
@@ -87,17 +92,18 @@ def FPlainV (w : Bool) : FVal → Prop
   | .arrSM _ _ _ pre _ m0 _ o items _ =>
     FPlainVs w pre ∧ ¬ bareQuestion pre m0 o ∧ ¬ gluesOp o items ∧ FPlainI .keyed items
   | .arrCM _ first pre _ _ _ o items _ =>
-    emptyC first = false ∧ FPlainV w first ∧ FPlainVs false pre ∧ ¬ gluesOp o items ∧ FPlainI .keyed items
+    emptyC first = false ∧ FPlainV w first ∧ FPlainVs (w && !closesV first) pre ∧ ¬ gluesOp o items ∧ FPlainI .keyed items
 def FPlainFirst (w : Bool) : FFirst → Prop
   | .kv _ _ o v => (w = true → o = .eq) ∧ FPlainV w v
-  | .flds f => FPlainF w f
+  /- (`fcntF f ≠ 0` holds for every valid layout: there `f` starts with a header field or a parameter block) -/
+  | .flds f => TextTape.fcntF f ≠ 0 ∧ FPlainF w f
 def FPlainF (w : Bool) : FFields → Prop
   | .nil => True
   | .cons _ _ _ o v rest => (w = true → o = .eq) ∧ FPlainV w v ∧ FPlainF (w && !closesV v) rest
-  | .consImp _ _ v rest => FPlainV w v ∧ FPlainF false rest
+  | .consImp _ _ v rest => FPlainV w v ∧ FPlainF (w && !closesV v) rest
   | .ghost _ _ rest => FPlainF w rest
   /- header with an empty body: known finding `roundtrip-header-empty-body` -/
-  | .consHdr _ _ _ o _ _ body rest => (w = true → o = .eq) ∧ emptyC body = false ∧ FPlainV w body ∧ FPlainF false rest
+  | .consHdr _ _ _ o _ _ body rest => (w = true → o = .eq) ∧ emptyC body = false ∧ FPlainV w body ∧ FPlainF (w && !closesV body) rest
   /- scalar-valued parameter block followed by another field: known finding `roundtrip-param-scalar` -/
   | .paramVal _ _ _ _ _ _ rest => TextTape.fcntF rest = 0
   | .paramObj _ _ _ _ _ _ o v inner _ rest =>
@@ -114,7 +120,8 @@ def FPlainI (mm : MixedMode) : FItems → Prop
   | .nil => True
   | .scal _ _ rest => FPlainI (if mm = .keyed then .started else mm) rest
   | .op _ o rest => (mm ≠ .disabled → ¬ gluesOp o rest) ∧ FPlainI (if mm = .disabled then .disabled else .keyed) rest
-  | .cont v rest => FPlainV (decide (mm ≠ .disabled)) v ∧ FPlainI .disabled rest
+  | .cont v rest => FPlainV (decide (mm ≠ .disabled)) v ∧
+    FPlainI (if closesV v then .disabled else if mm = .keyed then .started else mm) rest
 end
 
 end Jomini.Writer.Spec
